@@ -53,6 +53,9 @@ TIES = _ties()
 # ------------------------------------------------------------------ generators
 def gen_r3(rng):
     n = rng.choice([1, 2, 3, 4, 5, 8, 13, 16, 20])
+    if rng.random() < 0.25:
+        # class sizes for which (1/n)*n or ((n-1)/n)*n round away from the integer: the tests are on the rate itself
+        n = rng.choice([49, 98, 103, 107, 161, 187, 196, 197, 93, 186])
     n_rate = n if rng.random() < 0.7 else rng.choice([5, 13, 16, 7])     # population the rates were computed over
     k_pool = [0, 0, 1, n_rate - 1, n_rate, n_rate, rng.randint(0, n_rate), rng.randint(0, n_rate)]
     m = rng.randint(1, 6)
